@@ -233,15 +233,18 @@ class Conn:
             self.stdin.feed(text + "\n")
         else:
             import indi.message as M
-            try:
-                msg = M.IndiMessage.from_string(text)
-            except Exception:
-                self.rejected_by_parser += 1
-                return
-            try:
-                self.router.process_message(msg, sender=self.rec)
-            except Exception:
-                pass  # recorded by the tap
+            for part in text.split("\n"):
+                if not part.strip():
+                    continue
+                try:
+                    msg = M.IndiMessage.from_string(part)
+                except Exception:
+                    self.rejected_by_parser += 1
+                    continue
+                try:
+                    self.router.process_message(msg, sender=self.rec)
+                except Exception:
+                    pass  # recorded by the tap
         await self.sess.quiesce()
 
     def output(self):
@@ -397,8 +400,15 @@ def ctx_logs_tail():
     return core.LOGS.last[-3:]
 
 
+PAIRS = []
+
+
 def one_case(ctx, case):
-    cat = catalogue()
+    cat = catalogue() + PAIRS
+    if case["fault"].startswith("pair:") and not any(f[0] == case["fault"] for f in cat):
+        a, b = case["fault"][5:].split("+", 1)
+        base = {f[0]: f for f in catalogue()}
+        cat.append((case["fault"], base[a][1] + "\n" + base[b][1], set(base[a][2]) | set(base[b][2])))
     fault = next(f for f in cat if f[0] == case["fault"])
     asyncio.run(session(ctx, case, fault, case["transport"], case["position"], case.get("frag", False)))
     ctx.case((case["fault"], case["transport"], case["position"], case.get("frag", False)), nontrivial=True,
@@ -407,6 +417,14 @@ def one_case(ctx, case):
 
 def run(ctx):
     cat = catalogue()
+    if ctx.thorough:
+        # pairs of hostile messages: the second one injected right behind the first
+        rng = ctx.rng("pairs")
+        base = list(cat)
+        for k in range(400):
+            a, b = rng.choice(base), rng.choice(base)
+            cat.append((f"pair:{a[0]}+{b[0]}", a[1] + "\n" + b[1], set(a[2]) | set(b[2])))
+        PAIRS[:] = cat[len(base):]
     ctx.notes["catalogue_size"] = len(cat)
     positions = list(range(7))
     i = 0
